@@ -594,7 +594,7 @@ def run(tier, pid="C13"):
     if not quick:
         mc["suite"] += ["cs_mc3.cfg", "cs_mc4.cfg", "cs_mc13.cfg"]
         mc["stream"] += ["css_mc3.cfg", "css_mc4.cfg", "css_mc13.cfg"]
-    nsim = 250 if quick else 1000
+    nsim = 150 if quick else 1000
     jobs = {}
     for v in ("suite", "stream"):
         mod, _, pre = CFG[v]
@@ -637,7 +637,7 @@ def run(tier, pid="C13"):
                           expected="no worker alive when run() returns", observed=ex.alive())
 
     sys_counts = []
-    cap = 1000 if quick else 1000
+    cap = 600 if quick else 1000
     for variant, script, mf, ia, cf, bound in systematic_scenarios(tier):
         exr = S.Explorer(bound, max_executions=cap)
         while exr.more():
@@ -652,7 +652,7 @@ def run(tier, pid="C13"):
         if len(rep.violations) >= 3:
             break
     rng = random.Random(rep.seed * 104729 + 13)
-    nrand = 500 if quick else 4000
+    nrand = 400 if quick else 4000
     for j in range(nrand):
         if len(rep.violations) >= 3:
             break
@@ -685,7 +685,7 @@ def run(tier, pid="C13"):
                 if bad:
                     k, clause, exp, obs = bad
                     sig = "B1:%s:%s:%s" % (v, clause, fault_sig(beh))
-                    sc = dict(beh, hist=beh["hist"][: k + 1], kind="B1", variant=v)
+                    sc = dict(beh, kind="B1", variant=v, failed_at_step=k)
                     rep.violation(clause, sig, sc, expected=exp, observed=obs)
                     if len(rep.violations) >= 3:
                         break
